@@ -40,7 +40,7 @@ impl Property for C03 {
         let a = model::align(ty);
         let extra = t.below(3 * a + 18);
         let flush_left = t.chance(1, 4);
-        let route = t.take(6);
+        let route = t.route(6);
         let big = t.chance(1, 12);
         let mut fuel = if big { Fuel::big() } else { Fuel::small() };
         let gm = t.take(2);
